@@ -199,3 +199,7 @@ fn test_barrier() {
     }
     assert!(leader_found);
 }
+
+#[cfg(kani)]
+#[path = "/verif/harness/may/sync_barrier.rs"]
+mod verif_kani;
